@@ -115,31 +115,80 @@ type c03CloseReader struct {
 
 func (r *c03CloseReader) Close() error { r.closed++; return nil }
 
+// c03EOFReader returns its last bytes together with io.EOF and an empty read before them,
+// both allowed by the io.Reader contract.
+type c03EOFReader struct {
+	b     []byte
+	step  int
+	empty bool
+}
+
+func (r *c03EOFReader) Read(p []byte) (int, error) {
+	if !r.empty && len(r.b) > 0 {
+		r.empty = true
+		return 0, nil
+	}
+	r.empty = false
+	n := r.step
+	if n > len(p) {
+		n = len(p)
+	}
+	if n >= len(r.b) {
+		n = copy(p, r.b)
+		r.b = nil
+		return n, io.EOF
+	}
+	copy(p, r.b[:n])
+	r.b = r.b[n:]
+	return n, nil
+}
+
+const c03Flavours = 6
+
 func c03NewStream(content []byte, flavour int) io.Reader {
 	c := append([]byte(nil), content...)
-	switch flavour % 4 {
+	switch flavour % c03Flavours {
 	case 0:
 		return &c03PlainReader{b: c, step: 1 << 20}
 	case 1:
 		return bytes.NewReader(c) // io.WriterTo path
 	case 2:
 		return &c03CloseReader{c03PlainReader: c03PlainReader{b: c, step: 1500}}
-	default:
+	case 3:
 		return &c03PlainReader{b: c, step: 1}
+	case 4:
+		return &c03EOFReader{b: c, step: 1 << 20}
+	default:
+		return &c03EOFReader{b: c, step: 1200}
 	}
 }
 
-func c03ApplyOp(ctx *RequestCtx, op string, flavour int) {
+// registered (StatusMessage known) and unregistered final status codes that carry a body
+var c03KnownCodes, c03UnregCodes = func() (k, u []int) {
+	for c := 200; c <= 999; c++ {
+		if c == 204 || c == 304 {
+			continue
+		}
+		if StatusMessage(c) != StatusMessage(999) {
+			k = append(k, c)
+		} else {
+			u = append(u, c)
+		}
+	}
+	return k, u
+}()
+
+func c03ApplyOp(ctx *RequestCtx, op string, flavour, codeK, codeU int) {
 	h := &ctx.Response.Header
 	switch op {
 	case "St204":
 		ctx.SetStatusCode(204)
 	case "St304":
 		ctx.SetStatusCode(304)
-	case "St404":
-		ctx.SetStatusCode(404)
-	case "St999":
-		ctx.SetStatusCode(999)
+	case "StKnown":
+		ctx.SetStatusCode(codeK)
+	case "StUnreg":
+		ctx.SetStatusCode(codeU)
 	case "Msg":
 		h.SetStatusMessage([]byte(c03CustomMsg))
 	case "SetXA1":
@@ -212,6 +261,8 @@ type c03Srv struct {
 	mu   sync.Mutex
 	prog []string
 	flav int
+	codeK int
+	codeU int
 }
 
 func c03Start() *c03Srv {
@@ -222,10 +273,10 @@ func c03Start() *c03Srv {
 			return
 		}
 		s.mu.Lock()
-		prog, flav := s.prog, s.flav
+		prog, flav, codeK, codeU := s.prog, s.flav, s.codeK, s.codeU
 		s.mu.Unlock()
 		for _, op := range prog {
-			c03ApplyOp(ctx, op, flav)
+			c03ApplyOp(ctx, op, flav, codeK, codeU)
 		}
 	}
 	comp := CompressHandler(inner)
@@ -321,7 +372,7 @@ func c03Clip(b []byte) string {
 
 // c03Judge compares what the peer saw with the reference view. It returns (category, detail)
 // pairs; an empty result means conformance.
-func c03Judge(v *c03View, k c03Kind, raw []byte, eof bool) [][2]string {
+func c03Judge(v *c03View, k c03Kind, raw []byte, eof bool, codeK, codeU int) [][2]string {
 	var out [][2]string
 	bad := func(cat, f string, a ...any) { out = append(out, [2]string{cat, fmt.Sprintf(f, a...)}) }
 	hasCanary := bytes.Contains(raw, []byte(c03Marker))
@@ -355,10 +406,17 @@ func c03Judge(v *c03View, k c03Kind, raw []byte, eof bool) [][2]string {
 	}
 	rest, _ := io.ReadAll(br)
 
-	if resp.StatusCode != v.Status {
-		bad("status", "status %d, reference %d", resp.StatusCode, v.Status)
+	wantStatus := v.Status
+	switch wantStatus {
+	case 1:
+		wantStatus = codeK // the reference's KnownStatus placeholder
+	case 2:
+		wantStatus = codeU
 	}
-	if v.Msg && resp.Status != fmt.Sprintf("%d %s", v.Status, c03CustomMsg) {
+	if resp.StatusCode != wantStatus {
+		bad("status", "status %d, reference %d", resp.StatusCode, wantStatus)
+	}
+	if v.Msg && resp.Status != fmt.Sprintf("%d %s", wantStatus, c03CustomMsg) {
 		bad("reason", "status line %q, reference reason %q", resp.Status, c03CustomMsg)
 	}
 	// X-A field lines
@@ -445,7 +503,7 @@ func c03Nontrivial(prog []string, k c03Kind) bool {
 	}
 	for _, op := range prog {
 		switch op {
-		case "Msg", "SetXA1", "AddXA2", "DelXA", "CType", "Cookie", "St404", "St999", "HandTE":
+		case "Msg", "SetXA1", "AddXA2", "DelXA", "CType", "Cookie", "StKnown", "StUnreg", "HandTE":
 		default:
 			return true
 		}
@@ -454,9 +512,11 @@ func c03Nontrivial(prog []string, k c03Kind) bool {
 }
 
 type c03Job struct {
-	v    *c03Vec
-	k    c03Kind
-	flav int
+	v     *c03Vec
+	k     c03Kind
+	flav  int
+	codeK int
+	codeU int
 }
 
 func TestVerifC03RespFraming(t *testing.T) {
@@ -484,11 +544,11 @@ func TestVerifC03RespFraming(t *testing.T) {
 	for _, v := range vecs {
 		if len(v.Prog) <= fullLen {
 			for _, k := range kinds {
-				jobs = append(jobs, c03Job{v, k, rng.Intn(4)})
+				jobs = append(jobs, c03Job{v, k, rng.Intn(c03Flavours), c03KnownCodes[rng.Intn(len(c03KnownCodes))], c03UnregCodes[rng.Intn(len(c03UnregCodes))]})
 			}
 		} else {
 			for _, i := range rng.Perm(len(kinds))[:perLong] {
-				jobs = append(jobs, c03Job{v, kinds[i], rng.Intn(4)})
+				jobs = append(jobs, c03Job{v, kinds[i], rng.Intn(c03Flavours), c03KnownCodes[rng.Intn(len(c03KnownCodes))], c03UnregCodes[rng.Intn(len(c03UnregCodes))]})
 			}
 		}
 	}
@@ -528,7 +588,7 @@ func TestVerifC03RespFraming(t *testing.T) {
 					continue // compression re-frames the stream: stated assumption
 				}
 				srv.mu.Lock()
-				srv.prog, srv.flav = j.v.Prog, j.flav
+				srv.prog, srv.flav, srv.codeK, srv.codeU = j.v.Prog, j.flav, j.codeK, j.codeU
 				srv.mu.Unlock()
 				if conn == nil {
 					c, err := srv.ln.Dial()
@@ -547,7 +607,7 @@ func TestVerifC03RespFraming(t *testing.T) {
 					mu.Unlock()
 					return
 				}
-				res := c03Judge(view, j.k, raw, eof)
+				res := c03Judge(view, j.k, raw, eof, j.codeK, j.codeU)
 				// a connection is reused only after a cleanly framed exchange
 				if eof || len(res) > 0 {
 					conn.Close()
@@ -564,7 +624,7 @@ func TestVerifC03RespFraming(t *testing.T) {
 				for _, r := range res {
 					catCount[r[0]]++
 					if dump != nil {
-						fmt.Fprintf(dump, "%v|%s|%s|%s|f%d|%s\n", tags, r[0], j.k.String(), strings.Join(j.v.Prog, ","), j.flav%4, r[1])
+						fmt.Fprintf(dump, "%v|%s|%s|%s|f%d|%s\n", tags, r[0], j.k.String(), strings.Join(j.v.Prog, ","), j.flav%c03Flavours, r[1])
 					}
 				}
 				mu.Unlock()
@@ -580,8 +640,8 @@ func TestVerifC03RespFraming(t *testing.T) {
 					}
 					// key: [labels of recorded deviations]|category|request kind|program
 					key := fmt.Sprintf("[%s]|%s|%s|%s", strings.Join(tags, ","), r[0], j.k.String(), strings.Join(j.v.Prog, ","))
-					vfViol(key, fmt.Sprintf("program %v, request %s, stream flavour %d: %s", j.v.Prog, j.k, j.flav%4, r[1]),
-						vfRec{"prog": j.v.Prog, "kind": j.k.String(), "flavour": j.flav % 4, "view": view, "wire_prefix": c03Clip(raw)})
+					vfViol(key, fmt.Sprintf("program %v, request %s, stream flavour %d, StKnown=%d StUnreg=%d: %s", j.v.Prog, j.k, j.flav%c03Flavours, j.codeK, j.codeU, r[1]),
+						vfRec{"prog": j.v.Prog, "kind": j.k.String(), "flavour": j.flav % c03Flavours, "view": view, "wire_prefix": c03Clip(raw)})
 				}
 			}
 		}(w)
